@@ -29,6 +29,15 @@ every byte the source yields before EOF must arrive (request_roundtrip / respons
 enable_compression(): the status, Content-Range and slice are judged against ref/static.py (RFC 9110 13.1.5, 14) and
 the body the caller reads must be exactly the slice that the response's own Content-Range names (response_roundtrip,
 keys range:* and body:file:range*).
+
+And (5) a handler that answers without reading the request body, or after a prefix of it (srv_read "ignore" / "prefix:N";
+an early 401/413, or a handler with no use for the body), while the rest of the body is still arriving in as many reads as
+the client-to-server segmentation makes of it.  The prefix must be the first bytes sent (request_roundtrip, key
+body_prefix:*); the server, having promised persistence, has to take the rest of the body off the connection and serve the
+next request on it (keepalive_agreement: server_closes_after_promising_keepalive and the other rules, unchanged); the client
+may stop sending once the final response is there, but then the request is incomplete and it must not write another one to
+that connection (keepalive_agreement, key request_written_after_incomplete_request_body:*).  A client close while request
+bytes were still unsent/unflushed is the client abandoning its upload - no disagreement.
 """
 from __future__ import annotations
 
@@ -68,7 +77,8 @@ LEVEL_NOTE = (
     "framing/Connection choice), ref/static.evaluate (RFC 9110 13.1.5/14 range arithmetic: which status/slice a Range "
     "request to a FileResponse may get), stdlib email/urllib/zlib/json as independent decoders, SimNet's TCP model. "
     "Bounds: <=6 exchanges per session, one session and one origin per run, bodies <=256 KiB, no TLS, no proxies, no "
-    "redirects followed, no pipelining, handlers always read the whole request before answering. A second batch "
+    "redirects followed, no pipelining, handlers read the whole request before answering except in the ~12% of runs "
+    "where one handler answers after reading nothing or a prefix of the body. A second batch "
     "(20% of runs) adds one reset/EOF per run and relaxes the oracle to 'nothing wrong is delivered'. When a run "
     "triggers one of the reported defects that puts garbage on a connection, exchanges before the trigger are judged "
     "in full and later ones are not judged. Two white-box reads, neither of which decides a verdict on its own: "
@@ -88,7 +98,9 @@ RULE = (
     "~10% of runs give one or two bodies (request data= / web.Response(body=)) as a raw file-like source with short reads "
     "(caps 1..100000 per read, bare RawIOBase or inside io.BufferedReader), ~10% send GET with Range (closed / open-ended / "
     "suffix / past-the-end / unsatisfiable, positions around chunk_size and the file end; sometimes If-Range) to a "
-    "FileResponse with or without enable_compression(); batch "
+    "FileResponse with or without enable_compression(); ~12% have one exchange (mostly not the last) with a body of 300 "
+    "bytes..64 KiB whose handler answers after reading 0/1/100/1000 body bytes, with the client-to-server direction cut into "
+    "several segments so that the rest of the body arrives in further reads after the response was written; batch "
     "'reset' adds one reset/EOF at a byte offset or loop step. Non-trivial: >=2 exchanges completed and at least one "
     "connection was reused or closed by a decision of either end. Distinct = interleaving signature."
 )
@@ -413,6 +425,8 @@ def gen(rng, tier, index):
         add_rawio(rng, scn)
     if rng.random() < P_FILE_RANGE:
         add_file_range(rng, scn)
+    if rng.random() < P_EARLY_ANSWER:
+        add_early_answer(rng, scn)
     return scn
 
 
@@ -604,6 +618,91 @@ def add_file_range(rng, scn):
             hs.append(["If-Range", ref_static.http_date(FILE_MTIME_S - rng.choice([0, 0, 1, 86400]))])
 
 
+# ---- extension 5: a handler that answers without reading (all of) the request body
+P_EARLY_ANSWER = 0.12
+EARLY_MODES = ["ignore", "ignore", "ignore", "prefix:1", "prefix:100", "prefix:1000"]
+EARLY_SEG = ["mss", "small", "tiny", "mixed"]
+EARLY_SEG_BULK = ["mss", "mixed", "tiny"]
+
+
+def add_early_answer(rng, scn):
+    """One exchange of the session (preferably not the last one) carries a body of some hundred bytes or more and its
+    handler answers without reading it, or after reading a prefix only (an early 401/413, or a handler that has no use
+    for the body).  The rest of the body is then still on its way - in as many reads as the segmentation of the
+    client-to-server direction makes of it - when the response is written."""
+    exs = scn["exchanges"]
+    free = [i for i, ex in enumerate(exs) if not ex["req"].get("expect_refuse")]
+    if not free:
+        return
+    inner = [i for i in free if i < len(exs) - 1]
+    i = rng.choice(inner) if inner and rng.random() < 0.85 else rng.choice(free)
+    heavy = _scn_biggest(scn) >= 65535  # (the segmentation/buffer knobs of the run were chosen for its largest body)
+    rq = exs[i]["req"]
+    if rq["method"].upper() == "HEAD":
+        rq["method"] = "POST"
+    b = rq["body"]
+    if b.get("size", 0) < 300:
+        kind = rng.choice(["bytes", "bytes", "bio", "str", "agen", "bytearray"])
+        size = rng.choice([300, 2047, 2049, 2049] + (SIZES_BIG if heavy else []))
+        b = {"kind": kind, "k": rng.randrange(251), "size": size}
+        if kind == "agen":
+            b["pieces"] = gen_pieces(rng, size)
+        rq["body"] = b
+        rq["json_api"] = False
+        if rq["chunked"] is False:
+            rq["chunked"] = None
+    rq["srv_read"] = rng.choice(EARLY_MODES)
+    pol = scn["net"]["pol_c2s"]
+    for j in range(len(pol)):
+        if pol[j] == "whole" and rng.random() < 0.7:
+            pol[j] = rng.choice(EARLY_SEG_BULK if heavy else EARLY_SEG)
+
+
+def early_mode(rq):
+    """None: the handler reads the whole body (every scenario without extension 5).  Else the number of body bytes the
+    handler reads before it answers (0 = none)."""
+    m = rq["srv_read"]
+    if m == "ignore":
+        return 0
+    if m.startswith("prefix:"):
+        return int(m[7:])
+    return None
+
+
+def chunked_complete(data):
+    """does this byte string hold a complete chunked body (RFC 9112 7.1: chunks, last-chunk, trailer section, CRLF)?"""
+    pos, n = 0, len(data)
+    while True:
+        e = data.find(b"\r\n", pos)
+        if e < 0:
+            return False
+        try:
+            size = int(bytes(data[pos:e]).split(b";", 1)[0].strip() or b"x", 16)
+        except ValueError:
+            return False
+        pos = e + 2
+        if size == 0:
+            # trailer section: field lines up to the empty line
+            while True:
+                e = data.find(b"\r\n", pos)
+                if e < 0:
+                    return False
+                if e == pos:
+                    return True
+                pos = e + 2
+        pos += size + 2
+        if pos > n:
+            return False
+
+
+def request_body_unsent(head_groups, body):
+    """(announced body not completely on the wire?, framing) from a request head's fields and the bytes written after it"""
+    if "transfer-encoding" in head_groups:
+        return not chunked_complete(body), "chunked"
+    declared = head_groups.get("content-length", [""])[0]
+    return bool(declared.isdigit() and len(body) < int(declared)), "content_length"
+
+
 def file_range_expect(rq, rs):
     """None: no Range request to a FileResponse.  'unjudged': outside what RFC 9110 14.2 defines (method other than GET,
     or a response that would not be 200 without Range) or not a single Range field line.  Else ref_static.Expect: the
@@ -726,6 +825,8 @@ def shrink(scn):
         for k, v in _DEF_REQ.items():
             if rq[k] != v:
                 yield _with_ex(scn, i, dict(ex, req=dict(rq, **{k: v})))
+        if rq["srv_read"].startswith("prefix:"):
+            yield _with_ex(scn, i, dict(ex, req=dict(rq, srv_read="ignore")))
         if len(rq["headers"]) > 1:
             for j in range(len(rq["headers"])):
                 yield _with_ex(scn, i, dict(ex, req=dict(rq, headers=rq["headers"][:j] + rq["headers"][j + 1:])))
@@ -930,6 +1031,26 @@ def oracle_selftest():
     assert not is_refused({"version": "1.0"}, {"expect_refuse": {"how": "raise"}, "expect100": True})
     assert not is_refused({"version": "1.1"}, {"expect_refuse": {"how": "raise"}, "expect100": False})
     assert not is_refused({"version": "1.1"}, {"expect100": True})
+    # resent rawio bodies: one read's worth missing from the middle (not the front, not the tail)
+    e_ = bytes(range(200)) * 3
+    assert _one_piece_missing(e_[:100] + e_[150:], e_, {"caps": [50], "wrap": None}) == (100, 50)
+    assert _one_piece_missing(e_[:100] + e_[150:], e_, {"caps": [49], "wrap": None}) is None
+    assert _one_piece_missing(e_[:100] + e_[150:], e_, {"caps": [1], "wrap": "buffered"}) == (100, 50)
+    assert _one_piece_missing(e_[50:], e_, {"caps": [100], "wrap": None}) is None       # the front: front_lost_...
+    assert _one_piece_missing(e_[:550], e_, {"caps": [100], "wrap": None}) is None      # the tail: plain body:rawio
+    assert _one_piece_missing(e_, e_, {"caps": [100], "wrap": None}) is None
+    assert _one_piece_missing(e_[:100] + e_[150:300] + e_[350:], e_, {"caps": [100], "wrap": None}) is None  # two pieces
+    assert _one_piece_missing(e_[:100] + b"x" + e_[151:], e_, {"caps": [100], "wrap": None}) is None
+    # early answers: how much the handler reads; when a request body is completely on the wire
+    assert early_mode({"srv_read": "ignore"}) == 0 and early_mode({"srv_read": "prefix:100"}) == 100
+    assert early_mode({"srv_read": "read"}) is None and early_mode({"srv_read": "iter_chunked:1000"}) is None
+    assert chunked_complete(b"3\r\nabc\r\n0\r\n\r\n") and chunked_complete(b"0\r\n\r\n") and chunked_complete(b"1;x=y\r\na\r\n0\r\nT: v\r\n\r\n")
+    assert not chunked_complete(b"") and not chunked_complete(b"3\r\nabc\r\n") and not chunked_complete(b"3\r\nabc\r\n0\r\n")
+    assert not chunked_complete(b"5\r\n0\r\n\r\n") and not chunked_complete(b"5\r\n0\r\n\r\n\r\n") and chunked_complete(b"5\r\n0\r\n\r\n\r\n0\r\n\r\n")
+    assert request_body_unsent({"content-length": ["5"]}, b"abc") == (True, "content_length")
+    assert request_body_unsent({"content-length": ["3"]}, b"abc") == (False, "content_length")
+    assert request_body_unsent({"transfer-encoding": ["chunked"]}, b"3\r\nabc\r\n") == (True, "chunked")
+    assert request_body_unsent({}, b"") == (False, "content_length")
     # the short-read source: RawIOBase contract (at least one byte, at most what is available, b"" only at the end)
     sr = ShortReader(b"abcdef", [2, 1])
     assert [sr.read(4), sr.read(4), sr.read(1), sr.read(65536), sr.read(9), sr.read(9), sr.read(9)] == [b"ab", b"c", b"d", b"e", b"f", b"", b""]
@@ -1084,12 +1205,30 @@ def run(scn, ch, log=False):
                 if not ctr._closing and info["c_close"] is None:
                     cause = _close_cause(ctr) if state["serving"] else "shutdown"
                     state["seq"] += 1
-                    info["c_close"] = {"step": loop.steps, "t": loop.time(), "cause": cause, "seq": state["seq"]}
+                    info["c_close"] = {"step": loop.steps, "t": loop.time(), "cause": cause, "seq": state["seq"],
+                                       "unflushed": len(ctr.out.buf)}
                     loop.note("c_close", f"c{n}:{cause}")
                 c_orig()
 
             str_.close = s_close
             ctr.close = c_close
+
+            # White-box note, used only to name the class of an exchange that failed or blocked anyway: was a cancelled
+            # drain future sitting on the client protocol when a request head was written to this connection?
+            w_orig = ctr.write
+
+            def c_write(data):
+                if _REQ_HEAD.match(data) is not None:
+                    dw = getattr(ctr.protocol, "_drain_waiter", None)
+                    if dw is not None and dw.cancelled():
+                        he_ = data.find(b"\r\n\r\n")
+                        mx_ = _XEX.search(data, 0, he_ + 4 if he_ >= 0 else len(data))
+                        if mx_ is not None:
+                            state.setdefault("stale_drain", set()).add(int(mx_.group(1)))
+                            loop.note("stale_drain_waiter", f"c{n}:ex{int(mx_.group(1))}")
+                w_orig(data)
+
+            ctr.write = c_write
 
             # FIN may arrive later than the last data segment (DESIGN 9/C02: "with the peer's EOF still in flight")
             eof_orig = ctr._deliver_eof
@@ -1187,6 +1326,9 @@ def run(scn, ch, log=False):
                 return await handle(request, rec)
             finally:
                 rec["finished"] = True
+                rec["finished_step"] = loop.steps
+                if rec.get("early"):
+                    rec["body_eof_at_return"] = request.content.is_eof()
                 if n in conns:
                     conns[n]["finished"] += 1
 
@@ -1257,8 +1399,21 @@ def run(scn, ch, log=False):
             except ValueError as e:  # undecodable escapes in literal targets
                 rec["path_error"] = repr(e)
             rec["cookies"] = dict(request.cookies)
-            rec["body"] = await read_request_body(request, rq["srv_read"])
-            rec["done"] = True
+            early = early_mode(rq)
+            if early is None:
+                rec["body"] = await read_request_body(request, rq["srv_read"])
+                rec["done"] = True
+            else:
+                # answers without reading the rest of the body ("done" stays False: there is no whole body to compare)
+                rec["early"] = True
+                loop.note("early_answer", f"ex{i}:{early}")
+                buf = bytearray()
+                while len(buf) < early:
+                    chunk = await request.content.read(early - len(buf))
+                    if not chunk:
+                        break
+                    buf += chunk
+                rec["prefix"] = bytes(buf)
             if rs["handler_delay"]:
                 await asyncio.sleep(rs["handler_delay"] * TICK)
             if rs["interim"] and request.version >= (1, 1) and request.transport is not None:
@@ -1486,6 +1641,9 @@ def run(scn, ch, log=False):
                         rec["error"] = type(e).__name__
                         rec["error_msg"] = repr(e)[:300]
                         rec["error_cause"] = _root_cause(e)
+                        if log:
+                            import traceback
+                            rec["error_tb"] = "".join(traceback.format_exception(type(e), e, e.__traceback__))[-3000:]
                     rec["end_step"] = loop.steps
                     rec["end_t"] = loop.time()
                     if ex["gap_ms"]:
@@ -1619,9 +1777,30 @@ def run(scn, ch, log=False):
                             f"{'Content-Length ' + declared if fr_ == 'content_length' else 'Transfer-Encoding chunked'}) and {nbody} body bytes, "
                             f"did not close connection {sg['conn']} and wrote the head of exchange {j} to it, which the server "
                             f"takes as the missing body; exchange {j}: {fate}")
+            # An early answer (the handler did not read the whole body): once the final response is there the client may
+            # stop sending (RFC 9112 9.3 / 9.6: then it has to close the connection), so fewer bytes than announced are
+            # no framing error; but the incomplete message ends the connection's use - whatever is written next would
+            # be taken by the server as the rest of that body.
+            early_sg = early_mode(rq) is not None and not refused_sg
+            if early_sg:
+                unsent, fr_ = request_body_unsent(hd, sg["body"])
+                sg["early_unsent"] = bool(unsent)
+                nx = sg["next"]
+                if unsent and nx is not None and not any_fault_early():
+                    j = nx["ex"]
+                    poisoned(j)
+                    poison["incl"] = min(poison.get("incl", len(exchanges)), j)
+                    reuse_conns.add(sg["conn"])
+                    violate("keepalive_agreement", f"request_written_after_incomplete_request_body:{fr_}",
+                            f"exchange {sg['ex']} ({rq['method']} body={rq['body']['kind']} chunked={rq['chunked']!r} compress={rq['compress']!r} "
+                            f"expect100={rq['expect100']}) was answered {results[sg['ex']]['status'] if sg['ex'] < len(results) else None} "
+                            f"by a handler that read {early_mode(rq)} body bytes; the client had written the head (framing {fr_}, "
+                            f"{'Content-Length ' + declared if fr_ == 'content_length' else 'Transfer-Encoding chunked'}) and {nbody} "
+                            f"bytes after it - not a complete body -, did not close connection {sg['conn']} and wrote the head of "
+                            f"exchange {j} to it, which the server takes as the rest of that body")
             if "content-length" in hd and "transfer-encoding" not in hd and rq["compress"] is None and declared.isdigit() \
                     and (nbody > int(declared) or (done and not any_fault_early() and last_seg[sg["ex"]] is sg and nbody != int(declared)
-                                                   and not refused_sg)):
+                                                   and not refused_sg and not early_sg)):
                 poisoned(sg["ex"])
                 violate("request_framing", f"content_length_vs_bytes_written:{ck}",
                         f"exchange {sg['ex']} ({rq['method']} body={rq['body']['kind']} chunked={rq['chunked']!r}): request head declares "
@@ -1740,6 +1919,15 @@ def run(scn, ch, log=False):
                 if rec["cookies"] != exp_cookies:
                     violate("request_roundtrip", "cookies", f"{tag}: handler saw cookies {rec['cookies']!r}, expected {exp_cookies!r}; "
                             f"Cookie header {got.get('cookie')!r}")
+            if rec.get("prefix") is not None:
+                # the handler answered after reading only the first bytes of the body: those must be the first bytes sent
+                want_n = early_mode(rq)
+                exp_ = req_body_bytes(body)
+                if exp_ is not None and rec["prefix"] != exp_[:want_n]:
+                    violate("request_roundtrip", "body_prefix:" + body["kind"],
+                            f"{tag}: handler asked for the first {want_n} body bytes and read {len(rec['prefix'])}, expected "
+                            f"{len(exp_[:want_n])}; {_diff(rec['prefix'], exp_[:want_n])}; chunked={rq['chunked']!r} "
+                            f"compress={rq['compress']!r} expect100={rq['expect100']}")
             if not rec["done"]:
                 return
             # body
@@ -1763,6 +1951,20 @@ def run(scn, ch, log=False):
                             f"{len(raw)} of the {len(exp)} the source yields: the front was consumed by the first attempt and the "
                             f"caller got no error; source read caps {body['caps']} wrap={body.get('wrap')} chunked={rq['chunked']!r} "
                             f"compress={rq['compress']!r}")
+                elif raw != exp and kind == "rawio" and r_ is not None and _one_piece_missing(raw, exp, body) is not None and any(
+                        n_ != rec["conn"] and o_.get("c_lost") is not None and r_["start_step"] <= o_["c_lost"] <= rec["step"]
+                        for n_, o_ in conns.items()):
+                    # the same circumstances (connection lost during the exchange, request sent again on another one from
+                    # the same unseekable source), but the read job orphaned by the first attempt ran after some reads
+                    # of the second attempt: what it took - one read's worth - is missing from the middle of the body
+                    a_, l_ = _one_piece_missing(raw, exp, body)
+                    violate("request_roundtrip", "body:rawio:piece_lost_when_resent_after_connection_loss",
+                            f"{tag}: the connection first used was lost during the exchange (step "
+                            f"{[o_['c_lost'] for n_, o_ in sorted(conns.items()) if n_ != rec['conn'] and o_.get('c_lost') is not None and r_['start_step'] <= o_['c_lost'] <= rec['step']]}), the "
+                            f"client sent the request again on connection {rec['conn']} and the handler read {len(raw)} of the {len(exp)} "
+                            f"bytes the source yields: bytes [{a_}:{a_ + l_}] (one read of the source, taken by the read job the first "
+                            f"attempt left behind) are missing between otherwise intact data and the caller got no error; source read "
+                            f"caps {body['caps']} wrap={body.get('wrap')} chunked={rq['chunked']!r} compress={rq['compress']!r}")
                 elif raw != exp:
                     violate("request_roundtrip", "body:" + kind, f"{tag}: handler read {len(raw)} bytes, expected {len(exp)}; {_diff(raw, exp)}; "
                             f"chunked={rq['chunked']!r} compress={rq['compress']!r} expect100={rq['expect100']}"
@@ -2057,6 +2259,16 @@ def run(scn, ch, log=False):
                     continue
                 poisoned(ex_)
                 violate("server_exception", f"{cause_}", f"the server could only log an exception instead of answering: {msg_}: {rep_} (root {cause_})")
+        def stale_drain_msg(i_, res_):
+            rq_ = exchanges[i_]["req"]
+            return (f"exchange {i_} ({rq_['method']} body={rq_['body']['kind']} chunked={rq_['chunked']!r} compress={rq_['compress']!r} "
+                    f"expect100={rq_['expect100']} v{scn['version']}) "
+                    + (f"failed without any fault: {res_.get('error_msg')} root cause {res_.get('error_cause')}" if res_["error"] else
+                       f"still blocked after {horizon:.0f} virtual seconds without any fault")
+                    + "; its head was written to a reused connection whose client protocol still held a *cancelled* drain future "
+                      "(left by the previous request's writer, cancelled in drain() when its early answer completed) while the "
+                      "transport was write-paused: the new request's writer awaits that future and is 'cancelled' by it")
+
         f4_seen = False
         for res in results:
             i = res["i"]
@@ -2080,6 +2292,10 @@ def run(scn, ch, log=False):
                     continue  # blocked: judged below
                 if excused_by_timer(i):
                     loop.faults["race_excused"] += 1
+                    continue
+                if i in state.get("stale_drain", ()):
+                    poisoned(i)
+                    violate("exchange_completes", "request_writer_cancelled_by_stale_drain_waiter", stale_drain_msg(i, res))
                     continue
                 violate("exchange_completes", f"client_error:{res['error']}<-{res.get('error_cause')}",
                         f"exchange {i} ({rq['method']} body={rq['body']['kind']} chunked={rq['chunked']!r} compress={rq['compress']!r} "
@@ -2154,7 +2370,15 @@ def run(scn, ch, log=False):
                                     f"{desc}: the server closed after this response (its decision), yet the client wrote "
                                     f"exchange {later[0][1]} to the same connection at step {later[0][0]}")
                     # R2: both sides chose keep-alive, nothing closed, yet the client abandons the connection
-                    if req_keep and resp_keep and not s_any_close and last_on_conn and not blocked and not refused_here:
+                    # An early answer that overtook the request body: the client stops sending and has to close (judged
+                    # above: request_written_after_incomplete_request_body); that close is no disagreement.
+                    # So is a close made while the client's transport still held request bytes the server had not
+                    # received: from the client's side the upload was still going on when the final response completed,
+                    # and it may abandon it by closing (RFC 9112 9.3: either end MAY close at any time; 9.6).
+                    early_unsent = any(sg_["ex"] == i and sg_["conn"] == n and sg_.get("early_unsent") for sg_ in all_segs) \
+                        or bool(hrec.get("early") and c["c_close"] and c["c_close"]["unflushed"] > 0)
+                    if req_keep and resp_keep and not s_any_close and last_on_conn and not blocked and not refused_here \
+                            and not early_unsent:
                         nxt = i + 1
                         cc = c["c_close"]
                         nxt_start = results[nxt]["start_seq"] if nxt < len(results) else None
@@ -2173,7 +2397,11 @@ def run(scn, ch, log=False):
                             cls = "head" if rq["method"].upper() == "HEAD" else f"{rsp['status'] // 100}xx"
                             fr = rsp["framing"] if rsp["framing"] != "none" else (
                                 "no_length" if not any(a.lower() in (b"content-length", b"transfer-encoding") for a, _ in rsp["headers"]) else "declared")
-                            if own_close:
+                            if own_close and hrec.get("early"):
+                                # its own class: the whole request body had left the client's transport (nothing
+                                # unflushed) when the early answer completed, and the client closed all the same
+                                key_ = "client_abandons_persistent_connection:early_answer:request_body_already_flushed"
+                            elif own_close:
                                 key_ = f"client_abandons_persistent_connection:{cls}:{fr}"
                             else:
                                 # not closed, merely not back in the pool when the next request was issued
@@ -2183,7 +2411,10 @@ def run(scn, ch, log=False):
                                     f"fault or idle timer fired, but the client "
                                     + ("closed it" if own_close else "had not returned it to its pool when it issued the next request")
                                     + (f" and opened connection {moved} for exchange {nxt}" if moved else "")
-                                    + f" (client close cause: {cc and cc['cause']})")
+                                    + f" (client close cause: {cc and cc['cause']})"
+                                    + (f"; the handler answered after reading {early_mode(rq)} body bytes; the client had written the "
+                                       f"complete request body and its transport had flushed it (0 bytes pending) when it closed"
+                                       if hrec.get("early") else ""))
 
         # ------------------------------------------------------------------ liveness, stray exceptions
         if blocked and not step_capped and not any_fault:
@@ -2199,10 +2430,13 @@ def run(scn, ch, log=False):
                         if pr_ is not None and getattr(pr_, "_payload_has_more_data", False) and not tr_._closed \
                                 and not getattr(tr_.protocol, "_reading_paused", False) and not tr_._read_paused:
                             cls = f"{side}_parser_holds_received_bytes_while_reading_not_paused"
-                violate("exchange_completes", f"blocked:{cls}",
-                        f"exchange {pend['i']} ({rq['method']} body={rq['body']['kind']} chunked={rq['chunked']!r} compress={rq['compress']!r} "
-                        f"expect100={rq['expect100']} v{scn['version']} -> {rs['status']} {rs['body']['kind']}) still blocked after "
-                        f"{horizon:.0f} virtual seconds without any fault; status seen: {pend['status']}")
+                if pend["i"] in state.get("stale_drain", ()):
+                    violate("exchange_completes", "request_writer_cancelled_by_stale_drain_waiter", stale_drain_msg(pend["i"], pend))
+                else:
+                    violate("exchange_completes", f"blocked:{cls}",
+                            f"exchange {pend['i']} ({rq['method']} body={rq['body']['kind']} chunked={rq['chunked']!r} compress={rq['compress']!r} "
+                            f"expect100={rq['expect100']} v{scn['version']} -> {rs['status']} {rs['body']['kind']}) still blocked after "
+                            f"{horizon:.0f} virtual seconds without any fault; status seen: {pend['status']}")
         if main_batch and not any_fault:
             for cexc in loop.exc_contexts:
                 violate("loop_exception", f"{cexc['exc_type']}@{cexc.get('frame')}",
@@ -2237,6 +2471,24 @@ def run(scn, ch, log=False):
             probes["expect_refused_conn_reused_unsent"] = sum(1 for sg in all_segs if sg.get("refused_unsent") and sg["next"] is not None)
             probes["expect_refused_then_next_completed"] = sum(
                 1 for r in seen if r.get("refused") and r["ex"] + 1 < len(results) and results[r["ex"] + 1]["done"])
+        early_recs = [r for r in seen if r.get("early")]
+        if early_recs:
+            probes["early_answer"] = len(early_recs)
+            probes["early_answer_body_in_flight_at_return"] = sum(1 for r in early_recs if r.get("body_eof_at_return") is False)
+            probes["early_answer_client_body_unsent"] = sum(1 for sg in all_segs if sg.get("early_unsent"))
+            probes["early_answer_client_body_sent"] = sum(1 for sg in all_segs if sg.get("early_unsent") is False)
+            # the rest of the body reached the server in two or more reads after the handler had returned
+            multi = 0
+            for r in early_recs:
+                if r.get("body_eof_at_return") is False and r.get("finished_step") is not None:
+                    sname = f"s{r['conn']}"
+                    nxt_ = min([q["step"] for q in seen if q["conn"] == r["conn"] and q["step"] > r["step"]], default=None)
+                    k_ = sum(1 for st_, nm_, kd_, _d in net.wire if kd_ == "r" and nm_ == sname and st_ > r["finished_step"]
+                             and (nxt_ is None or st_ <= nxt_))
+                    multi += int(k_ >= 2)
+            probes["early_answer_rest_in_2+_reads"] = multi
+            probes["early_answer_then_next_on_same_conn"] = sum(
+                1 for r in early_recs if any(q["conn"] == r["conn"] and q["step"] > r["step"] for q in seen))
         probes["rawio_short_reads"] = state["short_reads"]
         probes["range_judged"] = state.get("range_judged", 0)
         probes["range_206"] = state.get("range_206", 0)
@@ -2272,7 +2524,8 @@ def run(scn, ch, log=False):
                      + ("+refuse" if any(is_refused(scn, ex["req"]) for ex in exchanges) else "")
                      + ("+hdrmix" if scn.get("session_headers") else "")
                      + ("+rawio" if any(ex[sd_]["body"]["kind"] == "rawio" for ex in exchanges for sd_ in ("req", "resp")) else "")
-                     + ("+range" if any(file_range_expect(ex["req"], ex["resp"]) is not None for ex in exchanges) else ""),
+                     + ("+range" if any(file_range_expect(ex["req"], ex["resp"]) is not None for ex in exchanges) else "")
+                     + ("+early" if any(early_mode(ex["req"]) is not None for ex in exchanges) else ""),
         }
         if log:
             res["event_log"] = loop.event_log
@@ -2439,9 +2692,27 @@ PROPOSED_KNOWN_FINDINGS = [
   "property": "C02",
   "status": "known",
   "invariant": "request_roundtrip",
-  "key_regex": "body:rawio:front_lost_when_resent_after_connection_loss",
-  "summary": "A request with an unseekable file-like body (IOBasePayload/BufferedReaderPayload over a pipe, socket file or other RawIOBase source) that is retried after its reused keep-alive connection was lost goes out with the front of the body missing - often with an empty body - and the caller gets no error. ClientSession._request decides whether the payload can be replayed with 'await req._close(); if req._body.consumed: raise' (client.py:735-746), but IOBasePayload only learns that it cannot rewind inside the executor job of its first read (payload.py:608-610 submits _read_and_available_len, which calls _set_or_restore_start_position, payload.py:472-478: tell() fails -> _consumed = True). When the connection dies while that job is still queued or running, the writer task is cancelled at 'await loop.run_in_executor(...)', ClientRequest._close (client_reqrep.py:1533-1543) waits for the writer task only and not for the job, 'consumed' is still False, and the request is rebuilt from the same payload ('data = req._body; continue'). The orphaned job then runs all the same (cancelling the asyncio future does not stop a thread-pool job), marks the payload consumed too late and takes the first chunk (up to 256 KiB) from the source; its result is discarded. The second attempt reads on from there: the handler receives a well-framed body that lacks those bytes, with a 2xx answer. The documented intent ('If the payload is already consumed and cannot be replayed' -> raise) is missed only through this ordering.",
+  "key_regex": "body:rawio:(front|piece)_lost_when_resent_after_connection_loss",
+  "summary": "A request with an unseekable file-like body (IOBasePayload/BufferedReaderPayload over a pipe, socket file or other RawIOBase source) that is retried after its reused keep-alive connection was lost goes out with the front of the body missing - often with an empty body - and the caller gets no error. ClientSession._request decides whether the payload can be replayed with 'await req._close(); if req._body.consumed: raise' (client.py:735-746), but IOBasePayload only learns that it cannot rewind inside the executor job of its first read (payload.py:608-610 submits _read_and_available_len, which calls _set_or_restore_start_position, payload.py:472-478: tell() fails -> _consumed = True). When the connection dies while that job is still queued or running, the writer task is cancelled at 'await loop.run_in_executor(...)', ClientRequest._close (client_reqrep.py:1533-1543) waits for the writer task only and not for the job, 'consumed' is still False, and the request is rebuilt from the same payload ('data = req._body; continue'). The orphaned job then runs all the same (cancelling the asyncio future does not stop a thread-pool job), marks the payload consumed too late and takes the first chunk (up to 256 KiB) from the source; its result is discarded. The second attempt reads on from there: the handler receives a well-framed body that lacks those bytes, with a 2xx answer. The documented intent ('If the payload is already consumed and cannot be replayed' -> raise) is missed only through this ordering. Second face (key piece_lost_...): the orphaned job may also run after some reads of the second attempt (a thread pool gives no ordering); it then swallows one read's worth from the middle of the body, e.g. bytes [400:500] of 2048 with a source that yields 100 bytes per read.",
   "example": "server keepalive_timeout=0.002 (or any idle close racing the next request); session.delete(url, data=<io.BufferedReader / io.RawIOBase over a pipe, 1 byte available>) as second request of the session: the pooled connection gets its FIN just after the writer task submitted its first read; the request is resent on a new connection with Transfer-Encoding: chunked and an empty body; request.read() in the handler returns b''"
+ },
+ {
+  "id": "C02-F18",
+  "property": "C02",
+  "status": "known",
+  "invariant": "exchange_completes",
+  "key_regex": "request_writer_cancelled_by_stale_drain_waiter",
+  "summary": "BaseProtocol._drain_helper (base_protocol.py:133-142) makes every writer that finds the transport paused await ONE shared future, self._drain_waiter, and awaits it unshielded; cancelling a task that waits there cancels that future, and nothing takes the cancelled future off the protocol (only resume_writing/connection_lost do, :56-64, :118-121). ClientResponse._response_eof cancels the request's writer task whenever it is still pending (client_reqrep.py:578 -> _cleanup_writer :655-657). When the writer is at that moment in the drain() of 'await writer.write_eof()' (client_reqrep.py:1530, outside the try block whose CancelledError branch closes the connection, :1515-1518) - the whole body and its terminator are already handed to the transport, the server answered without reading the body (early 4xx, or a handler with no use for it) and the transport is still above its low-water mark - the task ends, its done-callback returns the connection to the pool (:634-640), correctly, since the request is complete on the wire, but with a cancelled future left in protocol._drain_waiter and the protocol still paused. The next request of the session that has a body and is given this connection starts its writer (eagerly, inside ClientRequest._send, :989), reaches _drain_helper, awaits the already-cancelled future and gets a CancelledError nobody sent; _write_bytes takes it for a cancellation, calls conn.close() (:1517) and ends; _send returns normally and ClientResponse.start() then does 'await protocol.read()' with connection.protocol == None (:524-526): the caller gets AttributeError(\"'NoneType' object has no attribute 'read'\") for a request that never had a chance, on a connection both ends had agreed to keep. A following request sent with expect100=True dies the same way in the 'await writer.drain()' before it waits for '100 Continue' (:1485-1486): head sent, body never, both ends wait for ever. (The check names the class from a white-box look at protocol._drain_waiter when the request head is written; the verdict - the exchange failed or blocked without any fault - does not depend on it.) Needs a transport whose write buffer is still above its low-water mark after the last body write (observed with transport.set_write_buffer_limits(high=1, low=0) and (4096, 1024); with asyncio's default 64 KiB/16 KiB limits write_eof() rarely pauses).",
+  "example": "client transport write-buffer limits (1, 0); server handler 'return web.Response(status=418)' without reading the body; session.get(url, data=io.BytesIO(b'x' * 2049), chunked=True) over a link that delivers a few bytes at a time: the response completes while the writer waits in write_eof()'s drain; the following session.post(url, data=<async generator>) on the same session fails at once with AttributeError: 'NoneType' object has no attribute 'read' (client_reqrep.py:526)   /   ... followed by session.request('REPORT', url, data=<async generator>, expect100=True): blocked for ever after '100 Continue'"
+ },
+ {
+  "id": "C02-F19",
+  "property": "C02",
+  "status": "known",
+  "invariant": "keepalive_agreement",
+  "key_regex": "client_abandons_persistent_connection:early_answer:request_body_already_flushed",
+  "summary": "when a final response completes while the request's writer task is still pending, ClientResponse._response_eof cancels the writer (client_reqrep.py:578 -> :655-657) and ClientRequest._write_bytes answers a CancelledError raised inside 'await self._body.write_with_length(...)' with conn.close() ('Body hasn't been fully sent, so connection can't be reused', :1515-1518). That conclusion is drawn from where the task was suspended, not from what was sent: a writer that had handed the complete body to the transport and was only waiting in drain() for the buffer to empty is cancelled in the same place. If the transport has just flushed the last byte (resume_writing() has resolved the drain future, the task has not run yet) the whole request is on the wire and at the server, which answered with keep-alive headers and keeps the connection open - and the client closes it and opens a new one for the next request; wasteful, not unsafe (same family as C02-F13)",
+  "example": "session.post(url, data=bytearray(65536)) against a handler that reads one byte of the body and returns 404; the 64 KiB body (above the transport's 64 KiB high-water mark, so the writer waits in drain) is delivered in one piece and the response arrives in the same loop iteration in which the transport buffer empties: the client closes the connection it was told to keep"
  }
 ]
 
@@ -2468,6 +2739,22 @@ def _check_combined(violate, inv, tag, groups, combined):
     for name in comb:
         if name not in groups:
             violate(inv, "headers_mapping_view", f"{tag}: .headers has {name!r} which is not among the raw field lines")
+
+
+def _one_piece_missing(raw, exp, body):
+    """(offset, length) when `raw` is `exp` without exactly one contiguous piece that lies strictly inside it (data before
+    and after it arrived) and is no longer than one read of the rawio source can be - the largest cap for a bare source,
+    anything for one wrapped in io.BufferedReader, whose read(n) collects up to the n = 256 KiB the payload asks for;
+    else None.  (A missing front is the older class front_lost_...; a missing tail is no piece: plain body:rawio.)"""
+    miss = len(exp) - len(raw)
+    if miss <= 0:
+        return None
+    a = next((j for j in range(len(raw)) if raw[j] != exp[j]), len(raw))
+    if a == 0 or a + miss >= len(exp) or raw[a:] != exp[a + miss:]:
+        return None
+    if body.get("wrap") != "buffered" and miss > max(body["caps"]):
+        return None
+    return a, miss
 
 
 def _root_cause(e):
